@@ -1082,7 +1082,7 @@ pub fn run(args: &Args) -> i32 {
     let single: Option<u64> = args.extra.get("case").and_then(|s| s.parse().ok());
     let max_cases: u64 = args.tier.pick(20_000, 1_000_000);
     let next = AtomicU64::new(0);
-    let threads = if single.is_some() { 1 } else { 16 };
+    let threads = if single.is_some() { 1 } else { worker_threads() };
     run_threads(threads, |_| {
         let ctx = &ctx;
         let next = &next;
